@@ -337,7 +337,9 @@ namespace
                 case 0: { Active a; new (p) xtl::any(); } break;
                 case 1: with_type(k, [&](auto K) { auto val = TypeOf<decltype(K)::value>::make(id); { Active a; new (p) xtl::any(val); } }); want.empty = false; want.type = k; want.id = id; break;
                 case 2: with_type(k, [&](auto K) { auto val = TypeOf<decltype(K)::value>::make(id); { Active a; new (p) xtl::any(std::move(val)); } }); want.empty = false; want.type = k; want.id = id; break;
-                case 3: { Active a; if (const_rvalue) new (p) xtl::any(std::move(static_cast<const xtl::any&>(slot[src].get()))); else new (p) xtl::any(static_cast<const xtl::any&>(slot[src].get())); } want = pre_src; break;
+                case 3: { Active a; if (const_rvalue) new (p) xtl::any(std::move(static_cast<const xtl::any&>(slot[src].get())));
+                          else if (st.b & 8) new (p) xtl::any(slot[src].get());          // a non-const lvalue any: the copy constructor, not the converting one
+                          else new (p) xtl::any(static_cast<const xtl::any&>(slot[src].get())); } want = pre_src; break;
                 default: { Active a; new (p) xtl::any(std::move(slot[src].get())); } want = pre_src; break;
                 }
             }
@@ -382,6 +384,7 @@ namespace
                 xtl::any& from = inner ? xtl::any_cast<Nest&>(slot[t].get()).next : slot[src].get();
                 Active a;
                 if (move) slot[t].get() = std::move(from);
+                else if (st.b & 8) slot[t].get() = from;                                  // non-const lvalue source
                 else slot[t].get() = static_cast<const xtl::any&>(from);
             }
             catch (const Injected&) { threw = true; }
